@@ -197,7 +197,19 @@ pub fn gen_dp_query(r: &mut Rng, w: &DpWorld) -> DpQuery {
 /// Queries for privacy-unit-preserving rewriting (no final aggregation required)
 pub fn gen_pup_query(r: &mut Rng, _w: &DpWorld) -> DpQuery {
     let mut feats: Vec<&'static str> = vec![];
-    let sql = match r.below(14) {
+    let sql = match r.below(17) {
+        14 => {
+            feats.push("join_pup_pup_nonkey");
+            "SELECT a.id AS aid, b.id AS bid, a.amount + b.amount AS s FROM orders AS a JOIN orders AS b ON a.qty = b.qty".to_string()
+        }
+        15 => {
+            feats.push("join_users_users_nonkey");
+            "SELECT a.id AS aid, b.age AS bage FROM users AS a JOIN users AS b ON a.tier = b.tier".to_string()
+        }
+        16 => {
+            feats.push("intersect");
+            "SELECT user_id FROM orders WHERE qty > 1 INTERSECT SELECT user_id FROM orders WHERE amount > 0".to_string()
+        }
         0 => "SELECT id, user_id, amount FROM orders".to_string(),
         1 => format!("SELECT id, amount * 2 AS a2, qty FROM orders WHERE amount > {}", r.range(-10, 50)),
         2 => {
